@@ -1,8 +1,346 @@
+import JF.Model.MPMediator
+import JF.Lemmas.MPLocal
+import JF.Lemmas.MPLoop
+import JF.Lemmas.MPLeg
+import JF.Lemmas.MPRun
 /-!
 # C20 — Multi-process mediator commits the same events as the single-process mediator
-(placeholder: the stage-machine model and its refinement theorem are in preparation; the check currently rests on the
-schedule-controlled differential runs)
+
+Object of the theorems: the protocol model `JF/Model/MPMediator.lean` of
+`jellyfysh/mediator/multi_process_mediator/multi_process_mediator.py` — one leg of `MultiProcessMediator.run`
+(`JF.MP.leg` = `legRecv` ; `HS.commit` ; `trashAll`), the worker loop `run_in_process` (`HS.start`, `HS.cont`,
+`HS.finish`), and the two mediators closed over the same rest of the application (`runMP`, `runSP`).
+Values are abstracted to **tags**: a candidate time / out-state is identified by the handler and the leg in which the
+in-state it was computed from was extracted (handler computations are deterministic functions of that in-state and
+of the position in the handler's private random stream; out-state computations draw no random numbers — the
+quantifier of the property).
+
+All statements hold for every core count (in particular every `cores ≥ 2`: the pre-computation threshold
+`0 < remaining < cores − 1` only decides *when* something is started ahead of time, never *what* is committed),
+every set of handlers, every assignment of `send_out_state` arities and **every adversary**: the adversary is the
+list of results of `connection.wait`, constrained only by the contract of `wait` without time-out (`waitOK`: a
+non-empty list of distinct pipes of the leg that have something in flight).
+
+Hypotheses stated explicitly: the activator protocol (`running`, below and `JF.MP.Protocol`): a handler is returned
+by `get_event_handlers_to_run` only if it is not running; the handler returned by the scheduler is running; the
+committed handler is in its own trash list; trashed handlers stop running.
+
+Abstracted (exercised by the real runs of the check, not proved): the non-atomicity of the monkey-patched or-event,
+OS pipes/semaphore/process reaping.
+
+**Where the property fails on the real code** (`known_findings/C20.json`, §6): the refinement needs
+`Protocol.choose_perm` — the scheduler's answer must not depend on the order in which the candidate times of one leg
+are pushed. The real schedulers return the first-pushed of several minimal events and the multi-process mediator
+pushes in arrival order, so when two handlers started in the same leg report the same candidate time (sampling
+interval = end-of-run time; the sphere handler and the dipole handler of one pair of spheres in the shipped
+`hard_disk_dipoles_cells.ini`) the committed handler depends on the order in which the workers finish.
 -/
 namespace JF.C20
-theorem placeholder : True := trivial
+open JF.MP
+
+/-! ## 0. the initial state -/
+
+/-- `_start_processes`: every handler idle, every worker blocked in its first `wait()`, pipes empty, `_out_states`
+empty, nothing running: the boundary invariant holds -/
+theorem init_inv : BInv (fun _ => false) (fun _ => {}) := by
+  intro h; show ({} : HS).boundary false = true; decide
+
+/-! ## 1. `leg_terminates` -/
+
+/-- **Variant.** `mu` = Σ over the handlers of the leg of: 2 if `event_time_started`, 1 if `out_state_started`,
+1 if suspended and queued in `pipes_time_received`, else 0. One `for` loop over a legitimate `wait` result of
+length `k ≥ 1` lowers it by at least `k` and raises no error. -/
+theorem variant_decreases {n : Nat} {created : List Nat} {s0 : St} (c : Cfg) (w : List Nat) {L : Loop}
+    (hI : LInv n created s0 L) (hw : waitOK created L.st w = true) :
+    ∃ L', procWait c created.length L w = .ok L' ∧ LInv n created s0 L' ∧ mu created L' + w.length ≤ mu created L ∧
+      1 ≤ w.length := by
+  rw [waitOK_iff] at hw
+  obtain ⟨L', h1, h2, h3, -⟩ := procWait_ok c w hI hw.2.1 hw.2.2
+  refine ⟨L', h1, h2, h3, ?_⟩
+  cases w with
+  | nil => exact absurd rfl hw.1
+  | cons _ _ => simp
+
+/-- **The receive loop ends after at most `2 · len(created)` waits**, for every legitimate adversary: it raises
+nothing ("already finished" never fires), `connection.wait` is never called with nothing in flight (no deadlock),
+and the only way not to finish is that the adversary stops answering before `2 · len(created)` waits (unfair). -/
+theorem leg_terminates (c : Cfg) (n : Nat) {running : Nat → Bool} {s : St} {created : List Nat}
+    (waits : List (List Nat)) (hB : BInv running s) (hn : created.Nodup)
+    (hfresh : ∀ h ∈ created, running h = false) (hl : legLegit c n s created waits = true) :
+    (legRecv c n s created waits = .error .starved ∧ waits.length < 2 * created.length) ∨
+    ∃ L rest, legRecv c n s created waits = .ok (L, rest) ∧ rest.length ≤ waits.length ∧
+      waits.length - rest.length ≤ 2 * created.length := by
+  rcases legRecv_ok c n waits hB hn hfresh hl with h | ⟨L, rest, h1, -, h3, h4⟩
+  · exact Or.inl h
+  · exact Or.inr ⟨L, rest, h1, h3, h4⟩
+
+/-- fairness in its simplest form: an adversary that supplies `2 · len(created)` legitimate waits is enough -/
+theorem leg_terminates_fair (c : Cfg) (n : Nat) {running : Nat → Bool} {s : St} {created : List Nat}
+    (waits : List (List Nat)) (hB : BInv running s) (hn : created.Nodup)
+    (hfresh : ∀ h ∈ created, running h = false) (hl : legLegit c n s created waits = true)
+    (hlen : 2 * created.length ≤ waits.length) :
+    ∃ L rest, legRecv c n s created waits = .ok (L, rest) := by
+  rcases leg_terminates c n waits hB hn hfresh hl with ⟨-, h⟩ | ⟨L, rest, h, -⟩
+  · omega
+  · exact ⟨L, rest, h⟩
+
+/-! ## 2. `stage_inv` -/
+
+/-- **One leg preserves the boundary invariant and cannot fail.** Under the boundary invariant `BInv running s`
+(every handler: stage ↔ worker program counter ↔ pipe contents coherent, `HS.coh`; nobody `event_time_started`; a
+handler that is not running is idle with no stored out-state; a running idle handler has a stored out-state), the
+activator protocol (`hn hfresh hrun htr`) and a legitimate adversary, the leg
+* raises none of "Event Process not ready!", "… already finished …", `KeyError`, the `assert`, the worker's
+  "Continue event is not allowed in idle state!", never blocks in `recv`/`wait` and never misreads a pipe — its only
+  other outcome is `starved` (the adversary stopped before `2·len(created)` waits);
+* re-establishes the invariant for `running' = (running ∪ created) \ trash`;
+* commits the out-state tagged with the leg of the last start of the chosen handler;
+* pushes exactly the candidate times of this leg (a permutation of `created`);
+* leaves every worker that is not (still) running blocked with an empty pipe. -/
+theorem stage_inv (c : Cfg) (n : Nat) {running : Nat → Bool} {last : Nat → Nat} {s : St} {created : List Nat}
+    (waits : List (List Nat)) {chosen : Nat} {trash : List Nat}
+    (hB : BInv running s) (hlast : ∀ h, (s h).tag = last h)
+    (hn : created.Nodup) (hfresh : ∀ h ∈ created, running h = false)
+    (hrun : running chosen = true ∨ chosen ∈ created) (htr : chosen ∈ trash)
+    (hl : legLegit c n s created waits = true) :
+    (leg c n s created waits chosen trash = .error .starved ∧ waits.length < 2 * created.length) ∨
+    ∃ o, leg c n s created waits chosen trash = .ok o ∧
+      BInv (running' running created trash) o.st ∧
+      (∀ h, (o.st h).tag = last' last created n h) ∧
+      o.tag = last' last created n chosen ∧
+      o.loop.pushed.Perm (created.map fun h => (h, n)) ∧
+      (∀ h, running' running created trash h = false → (o.st h).quiescent = true) ∧
+      (∀ h, (o.st h).stage ≠ .outStarted → (o.st h).quiescent = true) := by
+  rcases legRecv_ok c n waits hB hn hfresh hl with ⟨h1, h2⟩ | ⟨L, rest, hL, hP, -, -⟩
+  · left; exact ⟨by simp [leg, h1], h2⟩
+  · right
+    obtain ⟨p, y, s3, ds, hcom, htrash, hB3, hlast3, hq1, hq2⟩ := legEnd_ok hB hlast hP hrun htr
+    exact ⟨⟨s3, upd L.st chosen y, L, rest.length, last' last created n chosen, p, ds⟩,
+      by simp [leg, hL, hcom, htrash], hB3, hlast3, rfl, hP.perm, hq1, hq2⟩
+
+/-- "Event Process not ready!" never fires: under the invariant every handler the activator may return is idle -/
+theorem activatable_is_idle {running : Nat → Bool} {s : St} (hB : BInv running s) {h : Nat}
+    (hr : running h = false) : (s h).stage = .idle ∧ (s h).stored = none ∧ (s h).chan = [] := by
+  have hb := (boundary_iff _ _).1 (hB h)
+  obtain ⟨h1, h2⟩ := hb.2.2.2 hr
+  refine ⟨h1, h2, ?_⟩
+  have := (coh_iff _).1 hb.1
+  rw [h1] at this
+  exact this.1.2
+
+/-- a handler is in stage suspended / out_state_started only while it is running -/
+theorem busy_only_while_running {running : Nat → Bool} {s : St} (hB : BInv running s) {h : Nat}
+    (hs : (s h).stage ≠ .idle) : running h = true := by
+  cases hr : running h with
+  | true => rfl
+  | false => exact absurd (activatable_is_idle hB hr).1 hs
+
+/-! ## 3. `mp_refines_sp`, `no_stale_out_state` -/
+
+/-- **Nothing computed for a handler survives its trashing**: at every leg boundary a handler that is not running
+has no stored out-state and an empty pipe, and its worker is blocked; whatever is stored or in flight for a running
+handler carries the tag of its last start. Hence an out-state pre-computed for an event that was trashed can never
+be committed later. -/
+theorem no_stale_out_state {running : Nat → Bool} {s : St} (hB : BInv running s) (h : Nat) :
+    (running h = false → (s h).stored = none ∧ (s h).chan = [] ∧ (s h).quiescent = true) ∧
+    (∀ t, (s h).stored = some t → t = (s h).tag) ∧
+    (∀ m ∈ (s h).chan, m = .out (s h).tag) := by
+  have hb := (boundary_iff _ _).1 (hB h)
+  have hc := (coh_iff _).1 hb.1
+  refine ⟨?_, fun t ht => (hc.2 t ht).2, ?_⟩
+  · intro hr
+    obtain ⟨h1, h2, h3⟩ := activatable_is_idle hB hr
+    refine ⟨h2, h3, ?_⟩
+    have := hc.1
+    rw [h1] at this
+    simp only [HS.quiescent, decide_eq_true_eq]
+    exact this
+  · intro m hm
+    have h1 := hc.1
+    cases hst : (s h).stage with
+    | idle => rw [hst] at h1; rw [h1.2] at hm; cases hm
+    | suspended => rw [hst] at h1; rw [h1.2] at hm; cases hm
+    | timeStarted => exact absurd hst hb.2.1
+    | outStarted =>
+      rw [hst] at h1
+      rcases h1 with h1 | h1
+      · rw [h1.2] at hm; cases hm
+      · rw [h1.2] at hm; simpa using hm
+
+/-- **The multi-process mediator refines the single-process mediator.** For every rest of the application `env`
+obeying the activator/scheduler protocol, every core count, every arity assignment and every adversary (one list of
+`wait` results per leg), from the initial state: the run of the multi-process mediator either commits exactly the
+sequence of (handler, event time, out-state, global state after the commit) of the single-process mediator over the
+same number of legs, or it stopped because the adversary broke the contract of `connection.wait` / stopped
+answering. No other outcome exists: no `MediatorError`, no `KeyError`, no blocked `recv`, no deadlock.
+Every sample is written by a mediating method as a function of the committed handler and the global state, so the
+samples coincide as well. -/
+theorem mp_refines_sp {G E T O : Type} (env : Env G E T O) (R : E → Nat → Bool) (P : Protocol env R) (cfg : Cfg)
+    (advs : List (List (List Nat))) (g : G) (e : E) (hR : ∀ h, R e h = false) (hist : Nat → G) :
+    runMP env cfg advs 0 g e (fun _ => {}) hist = .ok (runSP env advs.length 0 g e (fun _ => 0) hist) ∨
+    AdvFail (runMP env cfg advs 0 g e (fun _ => {}) hist) := by
+  have hB : BInv (R e) (fun _ => {}) := by
+    have : R e = fun _ => false := funext hR
+    rw [this]; exact init_inv
+  exact runMP_refines env R P cfg advs 0 g e _ hist (fun _ => 0) hB (fun _ => rfl)
+
+/-- the same from any boundary state satisfying the invariant (e.g. after a resume) -/
+theorem mp_refines_sp_from {G E T O : Type} (env : Env G E T O) (R : E → Nat → Bool) (P : Protocol env R) (cfg : Cfg)
+    (advs : List (List (List Nat))) (n : Nat) (g : G) (e : E) (s : St) (hist : Nat → G) (last : Nat → Nat)
+    (hB : BInv (R e) s) (hlast : ∀ h, (s h).tag = last h) :
+    runMP env cfg advs n g e s hist = .ok (runSP env advs.length n g e last hist) ∨
+    AdvFail (runMP env cfg advs n g e s hist) :=
+  runMP_refines env R P cfg advs n g e s hist last hB hlast
+
+/-! ## 4. the end of the run -/
+
+/-- **Workers at the end of a run.** The run ends (EndOfRun raised by a mediating method) after the trash loop of
+some leg, i.e. in a boundary state. There no worker has raised (see `stage_inv`: "Continue event is not allowed in
+idle state!" cannot fire), so every worker process is alive inside its loop and `post_run`'s
+`is_alive → terminate → join` reaches each of them. Every worker is blocked in one of its two `wait()` calls with an
+empty pipe, *except* running handlers left in `out_state_started` by a pre-computation that was neither used nor
+trashed: those are computing or have one unread out-state in their pipe (which is smaller than the pipe buffer or
+else the worker is blocked in `send`; either way `terminate` does not depend on it). -/
+theorem workers_at_end {running : Nat → Bool} {s : St} (hB : BInv running s) (h : Nat) :
+    (s h).quiescent = true ∨
+    (running h = true ∧ (s h).stage = .outStarted ∧
+      (((s h).pc = .computingOut ∧ (s h).chan = []) ∨ ((s h).pc = .idle ∧ (s h).chan = [.out (s h).tag]))) := by
+  have hb := (boundary_iff _ _).1 (hB h)
+  have hc := ((coh_iff _).1 hb.1).1
+  cases hst : (s h).stage with
+  | timeStarted => exact absurd hst hb.2.1
+  | idle => left; rw [hst] at hc; simpa [HS.quiescent] using hc
+  | suspended => left; rw [hst] at hc; simp [HS.quiescent, hc.1, hc.2]
+  | outStarted =>
+    right
+    rw [hst] at hc
+    exact ⟨busy_only_while_running hB (by rw [hst]; simp), rfl, hc⟩
+
+/-- if the last committed handler trashes everything that runs (as the end-of-run tagger of the shipped
+configurations does for every handler with a pre-computable out-state), every worker is blocked with an empty pipe -/
+theorem all_quiescent_at_end {running : Nat → Bool} {s : St} (hB : BInv running s)
+    (hnone : ∀ h, (s h).stage = .outStarted → running h = false) (h : Nat) : (s h).quiescent = true := by
+  rcases workers_at_end hB h with hq | ⟨hr, hst, -⟩
+  · exact hq
+  · rw [hnone h hst] at hr; cases hr
+
+/-! ## 5. non-vacuity: a concrete leg with 4 handlers on 3 cores -/
+
+/-- 3 cores, no handler takes `send_out_state` arguments -/
+def exCfg : Cfg := ⟨3, fun _ => false⟩
+/-- leg 7 from the initial state; the activator returns handlers 0 1 2 3 -/
+def exCreated : List Nat := [0, 1, 2, 3]
+/-- adversary: first the times of 0 1 2 arrive (after the third, `0 < 1 < 2`: handler 0 is started ahead of time),
+then the pre-computed out-state of 0 (which starts the pre-computation of 1) together with the time of 3 -/
+def exWaits : List (List Nat) := [[0, 1, 2], [0, 3]]
+
+/-- the scheduler returns 3; its trash list contains 1 (pre-computation in flight: drained and discarded) and 0
+(pre-computed out-state stored: deleted); 2 stays suspended -/
+def exLeg : Except Err LegOut := leg exCfg 7 (fun _ => {}) exCreated exWaits 3 [3, 1, 0]
+
+example : legLegit exCfg 7 (fun _ => {}) exCreated exWaits = true := by decide
+
+example : (match exLeg with
+    | .ok o => decide (
+        o.loop.pre = [0, 1] ∧                                   -- two pre-computations were started
+        o.loop.pushed = [(0, 7), (1, 7), (2, 7), (3, 7)] ∧
+        (o.atCommit 0).stored = some 7 ∧ (o.atCommit 1).stage = .outStarted ∧
+        (o.atCommit 2).stage = .suspended ∧ (o.atCommit 3).stored = some 7 ∧
+        o.tag = 7 ∧ o.path = .startedNow ∧
+        o.discarded = [3, 1, 0] ∧                               -- 1 (in flight) and 0 (stored) thrown away, 3 = the committed one
+        (o.st 0).stage = .idle ∧ (o.st 0).stored = none ∧ (o.st 1).stage = .idle ∧ (o.st 1).chan = [] ∧
+        (o.st 2).stage = .suspended ∧ (o.st 3).stage = .idle ∧ o.waitsLeft = 0)
+    | .error _ => false) = true := by decide
+
+/-- next leg: only 0 and 1 are restarted, 2 is still suspended from leg 7 and is chosen now: its out-state carries
+tag 7 (the leg of its last start), while a pre-computed out-state of 0 from leg 8 is used in leg 9 -/
+example : (match exLeg with
+    | .ok o =>
+      match leg exCfg 8 o.st [0, 1] [[1, 0]] 2 [2] with
+      | .ok o2 =>
+        decide (o2.tag = 7 ∧ o2.path = .startedNow ∧ o2.loop.pre = [1] ∧ (o2.st 1).stage = .outStarted) &&
+        (match leg exCfg 9 o2.st [2] [[2]] 1 [1] with
+         | .ok o3 => decide (o3.tag = 8 ∧ o3.path = .inFlight)
+         | .error _ => false)
+      | .error _ => false
+    | .error _ => false) = true := by decide
+
+/-- the error outcomes are reachable when the hypotheses are dropped: a handler that is not idle is returned by the
+activator; a `wait` result lists a pipe with nothing in flight; the scheduler returns a handler that never ran -/
+example : (match leg exCfg 1 (upd (fun _ => {}) 0 { stage := .suspended, pc := .suspended }) [0] [[0]] 0 [0] with
+    | .error e => decide (e = .notReady) | _ => false) = true := by
+  decide
+example : (match leg ⟨2, fun _ => false⟩ 1 (fun _ => {}) [0, 1] [[0, 0]] 0 [0] with
+    | .error e => decide (e = .alreadyFinished) | _ => false) = true := by
+  decide
+example : (match leg exCfg 1 (fun _ => {}) [0] [[0]] 5 [5] with | .error e => decide (e = .keyError) | _ => false) = true := by
+  decide
+
+/-! ### a toy application satisfying `Protocol` -/
+
+/-- three handlers 0 1 2; `E` = the set of running handlers; the activator returns every handler that is not
+running; the scheduler answers with a handler determined by the multiset of pushed times; only the committed handler
+is trashed -/
+def toyEnv : Env Nat (Nat → Bool) Nat Nat where
+  activate := fun _ e => ([0, 1, 2].filter (fun h => !e h), fun h => e h || decide (h ∈ [0, 1, 2].filter (fun h => !e h)))
+  timeOf := fun h n g => 2 * h + 2 * n + g
+  outOf := fun h n g => h * n + g + 1
+  choose := fun e l => ((l.map (·.2)).sum % 3, e)
+  commit := fun g o => g + o
+  trash := fun e c => ([c], fun h => e h && !decide (h ∈ [c]))
+
+theorem toy_protocol : Protocol toyEnv (fun e h => e h) where
+  act_nodup := by
+    intro g e
+    exact List.Nodup.sublist List.filter_sublist (by decide)
+  act_fresh := by
+    intro g e h hh
+    simp only [toyEnv, List.mem_filter] at hh
+    simpa using hh.2
+  act_run := by intro g e h; rfl
+  choose_run := by
+    intro g e l
+    have h3 : (l.map (·.2)).sum % 3 = 0 ∨ (l.map (·.2)).sum % 3 = 1 ∨ (l.map (·.2)).sum % 3 = 2 := by omega
+    simp only [toyEnv]
+    rcases h3 with h | h | h <;> rw [h] <;> cases he : e _ <;> simp [he]
+  choose_keep := by intro e l h; rfl
+  choose_perm := by
+    intro e l l' hp
+    simp only [toyEnv, (hp.map (·.2)).sum_nat]
+  trash_self := by intro e c; simp [toyEnv]
+  trash_run := by intro e c h; rfl
+
+/-- six legs of the toy application on 3 cores under a legitimate adversary that delivers out of order (in leg 0 the
+out-state of handler 2 is started ahead of time; it is committed in leg 2): the multi-process run commits what the
+single-process run commits -/
+example : ((runMP toyEnv exCfg [[[2, 0], [1]], [[0]], [[1]], [[2]], [[0]], [[1]]] 0 5 (fun _ => false) (fun _ => {})
+        (fun _ => 0)).toOption.map fun l => l.map fun c => (c.handler, c.time, c.out, c.post)) =
+    some ((runSP toyEnv 6 0 5 (fun _ => false) (fun _ => 0) (fun _ => 0)).map fun c => (c.handler, c.time, c.out, c.post)) := by
+  decide
+
+example : (runSP toyEnv 6 0 5 (fun _ => false) (fun _ => 0) (fun _ => 0)).map (·.handler) = [0, 1, 2, 0, 1, 1] := by
+  decide
+
+/-! ## 6. the hypothesis `choose_perm` is needed: ties (known finding) -/
+
+/-- `ListScheduler.get_succeeding_event` on the events of one leg: `min(events, key=time)` — the *first* minimal one -/
+def firstMin : List (Nat × Nat) → Nat
+  | [] => 0
+  | (h, t) :: l => if l.all (fun p => decide (t ≤ p.2)) then h else firstMin l
+
+/-- the toy application with a scheduler that breaks ties by push order, and handlers that all report the same
+candidate time -/
+def tieEnv : Env Nat (Nat → Bool) Nat Nat :=
+  { toyEnv with timeOf := fun _ _ _ => 7, choose := fun e l => (firstMin l, e) }
+
+/-- **Counterexample to the property when candidate times tie** (found on the real code, `known_findings/C20.json`):
+with equal candidate times in one leg, a scheduler that returns the first-pushed minimal event, and an adversary that
+delivers the times in the order 2, 1, 0, the multi-process mediator runs without any error and commits handler 2
+where the single-process mediator commits handler 0. Every other hypothesis of `mp_refines_sp` holds for this run. -/
+theorem tie_breaks_refinement :
+    (runSP tieEnv 1 0 5 (fun _ => false) (fun _ => 0) (fun _ => 0)).map (·.handler) = [0] ∧
+    ((runMP tieEnv exCfg [[[2, 1, 0]]] 0 5 (fun _ => false) (fun _ => {}) (fun _ => 0)).toOption.map
+      fun l => l.map (·.handler)) = some [2] := by
+  decide
+
 end JF.C20
